@@ -86,7 +86,8 @@ theorem conform_idempotent (σ : Leaves) (st : Store) (fuel fuel' : Nat) (t : Re
 theorem append_unary_to_select_sound (σ : Leaves) (st : Store) (fuel : Nat) (op : UOp) (S : Rel) (res : Res)
     (hS : SelOK σ S) (hop : op.wfOn S.columns = true)
     (hpush : ∀ c, op = .proj c → ∀ l r cc, S.skipTo = .binary .chain l r cc → ∀ x res', (x = l ∨ x = r) →
-      applyOp st fuel (.u (.proj c)) x {} = .ok res' → FinishOK σ (.proj c) x (res'.get x))
+      applyOp st fuel (.u (.proj c)) x {} = .ok res' →
+      Good σ (res'.get x) ∧ FinishOK σ (.proj c) x (res'.get x) ∧ (res'.get x).isSelect = true)
     (h : appendUnarySel st (fuel+1) (.u op) S = .ok res) : AppendOK σ op S (res.get S) :=
   (appendUnarySel_sound σ st fuel op S res hS hop hpush h).1
 
